@@ -217,6 +217,57 @@ def _unescape(s):
     return re.sub(r"\\u\{([0-9a-fA-F]+)\}", lambda m: chr(int(m.group(1), 16)), s)
 
 
+def l3_run(carve):
+    """expressions whose VALUES are Python literals (case / map branches, coalesce defaults) used as grouping keys, sort keys,
+    join keys and filter operands: the literals are data on both backends (native, Python oracle)"""
+    import warnings
+
+    import polars as pl
+    import sqlalchemy as sqa
+
+    import pydiverse.transform as pdt
+
+    from .c13 import _enum_outcome
+
+    sv = ["a%b", "x", None, "a%b", "q_", "x", "%"]
+    df = pl.DataFrame({"s": sv, "h": list(range(7))})
+    eng = sqa.create_engine("sqlite://")
+    df.write_database("t", eng)
+    bucket = lambda v: "100%" if v == "a%b" else ("it's" if v == "x" else "\\_")  # noqa: E731
+    n, bad = 0, []
+    with warnings.catch_warnings():
+        warnings.simplefilter("ignore")
+        for be, t in (("polars", pdt.Table(df, name="t")), ("sqlite", pdt.Table("t", pdt.SqlAlchemy(eng)))):
+            k_case = lambda: pdt.when(t.s == "a%b").then("100%").when(t.s == "x").then("it's").otherwise("\\_")  # noqa: E731
+            k_map = lambda: t.s.map({"a%b": "100%", "x": "it's"}, default=pdt.lit("\\_"))  # noqa: E731
+            cnt = {}
+            for v in sv:
+                cnt[bucket(v)] = cnt.get(bucket(v), 0) + 1
+            want_groups = sorted(cnt.items())
+            cases = [
+                ("group_by(case with literal branches) >> summarize", lambda: t >> pdt.mutate(k=k_case()) >> pdt.group_by(pdt.C.k) >> pdt.summarize(n=pdt.count()), lambda out: sorted(out.rows()) == want_groups),
+                ("group_by(map with literal values) >> summarize", lambda: t >> pdt.mutate(k=k_map()) >> pdt.group_by(pdt.C.k) >> pdt.summarize(n=pdt.count()), lambda out: sorted(out.rows()) == want_groups),
+                ("arrange(case with literal branches, h)", lambda: t >> pdt.mutate(k=k_case()) >> pdt.arrange(pdt.C.k, t.h) >> pdt.select(t.h), lambda out: out["h"].to_list() == [h for _, h in sorted((bucket(v), h) for h, v in enumerate(sv))]),
+                ("filter(case == literal)", lambda: t >> pdt.filter(k_case() == "100%") >> pdt.select(t.h), lambda out: sorted(out["h"].to_list()) == [h for h, v in enumerate(sv) if bucket(v) == "100%"]),
+                ("window partitioned by a case with literal branches", lambda: t >> pdt.mutate(k=k_case()) >> pdt.mutate(c=pdt.count(partition_by=pdt.C.k)) >> pdt.select(t.h, pdt.C.c),
+                 lambda out: sorted(out.rows()) == sorted((h, cnt[bucket(v)]) for h, v in enumerate(sv))),
+                ("coalesce(s, literal) as key", lambda: t >> pdt.mutate(k=pdt.coalesce(t.s, "n/a%")) >> pdt.group_by(pdt.C.k) >> pdt.summarize(n=pdt.count()),
+                 lambda out: sorted(out.rows()) == sorted({("n/a%" if v is None else v): sum(1 for w in sv if w == v) for v in sv}.items())),
+            ]
+            for label, mk, ok in cases:
+                n += 1
+                try:
+                    out = mk() >> pdt.export(pdt.Polars())
+                except (pdt.errors.SubqueryError, pdt.errors.NotSupportedError):
+                    continue
+                except Exception as ex:  # noqa: BLE001
+                    bad.append(f"[{be}] {label}: raises {type(ex).__name__}: {str(ex)[:140]}")
+                    continue
+                if not ok(out):
+                    bad.append(f"[{be}] {label}: got {out.rows()[:8]}")
+    return _enum_outcome("literal-valued case / map / coalesce expressions are data when used as grouping, sorting, partitioning and filter keys (Python oracle)", n, bad)
+
+
 def obligations(tier):
     obs = []
     disp = {"polars": H.fn_info(H.polars_backend.compile_col_expr), "sqlite": H.fn_info(H.sql_backend.SqlImpl.compile_col_expr)}
@@ -253,6 +304,8 @@ def obligations(tier):
                 )
                 obs.append(Obligation(f"C18/LIB/{kind}/{backend}/{lit!r}", "LIB", f"{kind} with the literal {lit!r} on {backend}: the specification agrees with the real engine on sampled values", make_lib(kind, lit, lit2, backend), functions=fns,
                                       bounded="10 sampled column values per literal (null, the literal itself, embedded, doubled, reversed, unrelated); native execution", carveouts={"regex_meta_pattern": "pattern contains regex metacharacters"}))
+    obs.append(Obligation("C18/L3/literal_valued_keys", "L3", "case / map / coalesce expressions with literal values used as keys (native, Python oracle)", l3_run,
+                          functions=[H.fn_info(H.col_expr_mod.CaseExpr.dtype), H.fn_info(H.sql_backend.SqlImpl.compile_ast), H.fn_info(H.sql_backend.SqlImpl.compile_lit)], bounded="6 key uses x 2 backends on one 7-row column with metacharacter literals"))
     return obs
 
 
